@@ -8,3 +8,4 @@ import Refine.Model.Geom
 import Refine.Model.Comm
 import Refine.Lemmas.ScalarReal
 import Refine.Props.C15
+import Refine.Props.C17
